@@ -36,7 +36,9 @@ fn gen_finish(g: &mut Rng, id: &str, last: bool, allow_panic: bool) -> Finish {
         6..=8 => Finish::Drop,
         9 if allow_panic => Finish::Panic,
         10 if last => Finish::Upgrade {
-            proto: "sim-proto".into(),
+            // one upgrade in three names a protocol that is not ASCII: `upgrade` panics before it has
+            // written anything (an application error), the request dies with the handler thread
+            proto: if allow_panic && g.chance(1, 3) { "w\u{e9}bsocket".into() } else { "sim-proto".into() },
             resp: RespSpec::simple(101, vec![]),
             ops: vec![
                 StreamOp::Write(B(format!("<<raw {}>>", id).into_bytes())),
@@ -52,7 +54,7 @@ impl Campaign for C06c {
         "C06"
     }
     fn rule(&self) -> &'static str {
-        "seeded scenarios: 1-2 connections with 1..5 pipelined requests (no body / buffered / streamed Content-Length bodies read none, partly or fully), each finished by respond / raw writer / upgrade (last only) / drop / handler panic, on handler threads or on the receiving thread, any order; one run in eight ends with a streamed body the client holds back until answered, one in eight with a streamed body cut short by the client closing its sending side; one in five is a mixed-feature conversation; non-trivial = at least one request was dropped or its handler panicked while another request of the same connection was outstanding; distinct = interleaving fingerprint"
+        "seeded scenarios: 1-2 connections with 1..5 pipelined requests (no body / buffered / streamed Content-Length bodies read none, partly or fully), each finished by respond / raw writer / upgrade (last only; one in three with a protocol name on which `upgrade` itself panics) / drop / handler panic, on handler threads or on the receiving thread, any order; one run in eight ends with a streamed body the client holds back until answered, one in eight with a streamed body cut short by the client closing its sending side; one in five is a mixed-feature conversation; non-trivial = at least one request was dropped or its handler panicked while another request of the same connection was outstanding; distinct = interleaving fingerprint"
     }
     fn runs(&self, tier: Tier) -> u64 {
         match tier {
@@ -263,7 +265,7 @@ impl Campaign for C06c {
             let got = finals(&parsed);
             let all_finished = exp.iter().all(|e| {
                 out.obs.events.iter().any(|ev| matches!(ev, crate::engine::Ev::FinishEnd { id, seq, .. } if id == &e.0 && *seq <= main.seq))
-                    || matches!(sc.programs.get(&e.0).map(|p| &p.finish), Some(Finish::Panic))
+                    || dies(sc.programs.get(&e.0).map(|p| &p.finish))
                     || (holder_panicked && never_started(&e.0))
             });
             for (k, e) in exp.iter().enumerate() {
@@ -273,7 +275,7 @@ impl Campaign for C06c {
                 };
                 match got.get(k) {
                     Some(m) => {
-                        let auto = es == 500 && (matches!(sc.programs.get(&e.0).map(|p| &p.finish), Some(Finish::Drop) | Some(Finish::Panic)) || (holder_panicked && never_started(&e.0)));
+                        let auto = es == 500 && (matches!(sc.programs.get(&e.0).map(|p| &p.finish), Some(Finish::Drop)) || dies(sc.programs.get(&e.0).map(|p| &p.finish)) || (holder_panicked && never_started(&e.0)));
                         if m.status != es || (!auto && m.body != eb) {
                             v.violations.push(Violation {
                                 clause: "C06.status_body".into(),
@@ -335,10 +337,21 @@ impl Campaign for C06c {
     }
 }
 
+/// The handler dies while it owns the request: an explicit panic, or `upgrade` called with a
+/// protocol name that cannot be a header value.
+fn dies(f: Option<&Finish>) -> bool {
+    match f {
+        Some(Finish::Panic) => true,
+        Some(Finish::Upgrade { proto, .. }) => !proto.is_ascii(),
+        _ => false,
+    }
+}
+
 fn kind_of(sc: &Scenario, id: &str) -> &'static str {
     match sc.programs.get(id).map(|p| &p.finish) {
         Some(Finish::Respond(_)) => "respond",
         Some(Finish::Writer { .. }) => "writer",
+        Some(Finish::Upgrade { proto, .. }) if !proto.is_ascii() => "upgrade that panics",
         Some(Finish::Upgrade { .. }) => "upgrade",
         Some(Finish::Drop) => "drop",
         Some(Finish::Panic) => "panic",
@@ -347,5 +360,5 @@ fn kind_of(sc: &Scenario, id: &str) -> &'static str {
 }
 
 fn dropped_before(sc: &Scenario, exp: &[(String, Expect, bool)], k: usize) -> bool {
-    exp[..k].iter().any(|e| matches!(sc.programs.get(&e.0).map(|p| &p.finish), Some(Finish::Drop) | Some(Finish::Panic)))
+    exp[..k].iter().any(|e| matches!(sc.programs.get(&e.0).map(|p| &p.finish), Some(Finish::Drop)) || dies(sc.programs.get(&e.0).map(|p| &p.finish)))
 }
